@@ -40,6 +40,20 @@ Theorem c07_sampled_axis : forall off itv count start k, (k < count)%nat ->
 Proof. exact sampled_axis_spec. Qed.
 Print Assumptions c07_sampled_axis.
 
+(* an axis started by POSITION: refused exactly before the offset, else it begins at the position and steps by the
+   interval; started on sample i it is the axis started by index i, i.e. position_at (i + k) *)
+Theorem c07_sampled_axis_at : forall off itv count p,
+  (p < off -> sampled_axis_at off itv count p = None) /\
+  (off <= p -> exists l, sampled_axis_at off itv count p = Some l /\ length l = count /\
+     forall k, (k < count)%nat -> exists v, nth_error l k = Some v /\ v == p + inject_Z (Z.of_nat k) * itv).
+Proof. exact sampled_axis_at_spec. Qed.
+Print Assumptions c07_sampled_axis_at.
+Theorem c07_sampled_axis_at_sample : forall off itv, 0 < itv -> forall count i k, (0 <= i)%Z -> (k < count)%nat ->
+  exists l v w, sampled_axis_at off itv count (position_at off itv i) = Some l /\ nth_error l k = Some v /\
+                nth_error (sampled_axis off itv count i) k = Some w /\ v == w /\ v == position_at off itv (i + Z.of_nat k).
+Proof. exact sampled_axis_at_sample. Qed.
+Print Assumptions c07_sampled_axis_at_sample.
+
 (* irregular ticks: for every ascending tick vector (repeats, single ticks, no ticks) *)
 Theorem c07_ticks_index_of : forall ticks p m, ascb ticks = true ->
   spec_index (tick_fn ticks) (tick_dom ticks) p m (range_index_of ticks p m).
